@@ -144,6 +144,41 @@ def gen_scenario(rng, features):
                             "to": sp, "from": pick(rng, [sp, "w3"])}]
         kernels.append(kern)
         calls.append({"kern": kname})
+    if "multireader" in features and rng.random() < 0.25:
+        # one writer of a continuous field followed by several readers with
+        # different halo needs (plain read by a kernel that only writes a
+        # discontinuous field; variable- or literal-extent stencil): they
+        # all hang off one halo exchange
+        cont = [f for f in plain if is_cont(fields[f])]
+        disc = [f for f in plain if not is_cont(fields[f])]
+        if cont and disc:
+            fld, out = pick(rng, cont), pick(rng, disc)
+
+            def newk(args):
+                name = f"k{len(kernels) + 1}"
+                kernels.append({"name": name, "args": args,
+                                "scalar": False})
+                return {"kern": name}
+            writer = newk([{"field": fld, "access": pick(rng, [
+                "gh_inc", "gh_inc", "gh_readinc"
+                if "readinc" in features else "gh_inc"]),
+                "space": fields[fld], "stencil": None}])
+            readers = []
+            for kind in rng.sample(["plain", "var", "lit", "plain"],
+                                   rng.randint(2, 3)):
+                st = None
+                if kind == "var":
+                    st = {"type": pick(rng, ["cross", "region"]),
+                          "extent": "ext"}
+                elif kind == "lit":
+                    st = {"type": "cross", "extent": pick(rng, [1, 2])}
+                readers.append(newk([
+                    {"field": out, "access": pick(rng, ["gh_write",
+                                                        "gh_readwrite"]),
+                     "space": fields[out], "stencil": None},
+                    {"field": fld, "access": "gh_read",
+                     "space": fields[fld], "stencil": st}]))
+            calls += [writer] + readers
     scn = {"fields": fields, "kernels": kernels, "calls": calls,
            "annexed": rng.random() < 0.5}
     if vectors:
